@@ -299,7 +299,15 @@ func genC02Remote(t *rapid.T) *c02Case {
 				}
 			}
 		}
-		return base + rapid.SampledFrom(frags).Draw(t, "frag")
+		frag := rapid.SampledFrom(frags).Draw(t, "frag")
+		if rapid.IntRange(0, 3).Draw(t, "via") == 0 {
+			// through an intermediate document that declares the other draft and holds nothing but
+			// the reference: a $schema-less target is still read under the root's draft
+			vname := fmt.Sprintf("via%d.json", len(c.Docs))
+			c.Docs["http://x.test/"+vname] = jv.ObjV(jv.Member{K: "$schema", V: jv.StrV(refmodel.URI2020)}, jv.Member{K: "$ref", V: jv.StrV(tg.uri + frag)})
+			return vname
+		}
+		return base + frag
 	}
 	root := sgen.Draw(t, sgen.Opts{Draft: refmodel.D7, MaxDepth: 2})
 	if root.K != jv.Obj {
